@@ -372,7 +372,7 @@ def cases(rng, tier):
                     continue
                 out.append(dict(b, api=list(a), fault=["zcut", k]))
     # random cuts and corruptions
-    for _ in range(1500 if tier == "quick" else 150000):
+    for _ in range(4000 if tier == "quick" else 150000):
         b = base_case(rng)
         total = len(c12.wire_of(dict(b, fault=["none"]))[2])
         a = rng.choice(apis())
